@@ -31,7 +31,7 @@ func (vLogger) WithLabel(name string, value string) log.Logger            { retu
 
 // vEnv is the scripted environment of one running step.
 type vEnv struct {
-	deployMode int // 0 ok, 1 error, 2 block until the context is done, then error
+	deployMode int // 0 ok, 1 error, 2 block until the context is done, then error, 3 block until the context is done, then ok
 	schemaMode int // 0 ok, 1 step missing, 2 error
 	execMode   int // 0 result immediately, 1 run until cancel signal or connection close
 	resultID   string
@@ -115,6 +115,10 @@ func (c *vConnector) Deploy(ctx context.Context, src string) (deployer.Plugin, e
 	case 2:
 		<-ctx.Done()
 		return nil, &verifrt.Err{Msg: "deploy aborted"}
+	case 3:
+		// a slow deployment that has already started the container: it completes (and hands the
+		// connection over) only after the step's context was cancelled
+		<-ctx.Done()
 	}
 	return verifAtomicDeployed(c.env), nil
 }
